@@ -259,6 +259,9 @@ def run_tlc(module, cfg, consts=None, workers=None, timeout=900, extra_files=Non
                 pass
             if line.startswith("Error:") and r.violation is None:
                 r.violation = line
+    except BaseException:
+        p.kill()
+        raise
     finally:
         timer.cancel()
     rc = p.wait()
